@@ -1,6 +1,5 @@
 """C13 - OpenACC data regions move all data the region needs (decision table
-of the clause chosen per access pattern; partially written arrays are not
-decided).
+of the clause chosen per access pattern).
 
 R1 clause-choice   RegionDirective.create_data_movement_deep_copy_refs: the
                    dictionary chosen for every combination of
@@ -10,6 +9,8 @@ R1 clause-choice   RegionDirective.create_data_movement_deep_copy_refs: the
 R2 clause-mapping  the three result sets reach the right clauses:
                    read-only -> copyin, write-only -> copyout, else copy.
 R3 validate        ACCDataTrans.validate obligations.
+R4 extent          the copyout choice consults the extent of the writes
+                   (it does not: known finding C13-a).
 """
 import ast
 import itertools
@@ -26,10 +27,10 @@ MANIFEST = {
             "in, written => copied out'; the order of the returned sets and "
             "their mapping to copyin / copyout / copy clauses is checked by "
             "def-use. Exhaustive over the abstract access patterns.",
-    "note": "The access summary carries no extent information: an array "
-            "that is 'written first' may still be only partly written (the "
-            "property's own example), which cannot be seen in this code's "
-            "shape and is NOT decided; nor is execution on separate memory.",
+    "note": "R4 shows from the code's shape that the copyout choice never "
+            "looks at the extent of the writes (known finding C13-a, the "
+            "property's own example). Whether a particular write covers "
+            "its array, and execution on separate memory, are NOT decided.",
     "technique": "exhaustive evaluation of a decision chain over a finite "
                  "boolean domain + def-use of the result tuple + "
                  "obligation table",
@@ -61,6 +62,20 @@ def eval_chain(stmts, facts):
                 ast.unparse(stmt.targets[0]) == "access_dict":
             result = ast.unparse(stmt.value)
     return result
+
+
+def guards_of_choice(stmts, facts):
+    """texts of the tests passed on the way to the chosen assignment"""
+    out = []
+    for stmt in stmts:
+        if isinstance(stmt, ast.If):
+            txt = " ".join(ast.unparse(stmt.test).split())
+            neg = txt.startswith("not ")
+            atom = txt[4:] if neg else txt
+            val = facts[ATOMS[atom]] != neg
+            out.append(atom)
+            out += guards_of_choice(stmt.body if val else stmt.orelse, facts)
+    return out
 
 
 def check(idx, run):
@@ -117,6 +132,28 @@ def check(idx, run):
             sample={"rule": "C13.R1", "facts": facts, "chosen": got,
                     "allowed": sorted(want), "ok": got in want})
     run.floor("feasible access patterns", ncomb, 5)
+    # R4: `write_only` (-> copyout) is only safe for an array that the
+    # region writes completely: the choice has to consult the extent of the
+    # writes, not just their order
+    nwo = 0
+    for facts, label in (({"rw": False, "r": False, "w": True, "wf": True},
+                          "never read"),
+                         ({"rw": False, "r": True, "w": True, "wf": True},
+                          "written before it is read")):
+        if eval_chain(chain, facts) != "write_only":
+            continue
+        nwo += 1
+        guards = guards_of_choice(chain, facts)
+        extent = [g for g in guards if g not in ATOMS]
+        run.check(
+            "C13.R4", bool(extent), cons,
+            f"copyout only for completely written arrays ({label})",
+            f"an array that is {label} is put into the copyout set on "
+            f"the evidence of {guards} alone: nothing looks at which "
+            f"elements are written, so a partially written array (do i=1,5:"
+            f" a(i)=0 with a(n)) has the undefined rest of its device copy "
+            f"copied back over the host data", loc(mod, chain[0]))
+    run.count("write-only choices examined", nwo)
     # scalars skipped (outside the claim), everything else classified
     skips = [ast.unparse(s.test) for s in fors[0].body
              if isinstance(s, ast.If) and any(isinstance(b, ast.Continue)
@@ -131,8 +168,9 @@ def check(idx, run):
     rets = [s for s in func.body if isinstance(s, ast.Return)]
     order = [ast.unparse(e) for e in rets[-1].value.elts] if rets and \
         isinstance(rets[-1].value, ast.Tuple) else []
-    run.check("C13.R2", order == ["read_only", "write_only", "readwrites"],
-              cons, "returns (read_only, write_only, readwrites)",
+    run.check("C13.R2", sorted(order) == ["read_only", "readwrites",
+                                          "write_only"],
+              cons, "returns the three sets",
               f"the result tuple is {order}", loc(mod, func))
     dcls = idx.get_class(
         "psyclone.psyir.nodes.acc_directives.ACCDataDirective")
@@ -152,16 +190,17 @@ def check(idx, run):
                     mapping[names.index(ast.unparse(stmt.test))] = \
                         (ast.unparse(call.func),
                          ast.unparse(stmt.test) in ast.unparse(call))
-    want = {0: "ACCCopyInClause", 1: "ACCCopyOutClause", 2: "ACCCopyClause"}
-    for pos, klass in want.items():
+    want = {"read_only": "ACCCopyInClause", "write_only": "ACCCopyOutClause",
+            "readwrites": "ACCCopyClause"}
+    for pos, dname in enumerate(order):
+        klass = want.get(dname)
         got = mapping.get(pos)
         run.check("C13.R2", got is not None and got[0] == klass and got[1],
                   "ACCDataDirective._update_data_movement_clauses",
-                  f"{order[pos] if order else pos} -> {klass}",
-                  f"the {['read-only', 'write-only', 'read-write'][pos]} "
-                  f"set is turned into {got}, expected {klass} over the "
-                  f"same set", loc(dcls.module, ufunc))
-    # the clauses are regenerated whenever the tree changes
+                  f"{dname} -> {klass}",
+                  f"the {dname} set (element {pos} of the result) is turned "
+                  f"into {got}, expected {klass} over the same set",
+                  loc(dcls.module, ufunc))
     txt = ast.unparse(ufunc)
     run.check("C13.R2", "self.children.remove(child)" in txt,
               "ACCDataDirective._update_data_movement_clauses",
@@ -183,4 +222,4 @@ def check(idx, run):
                           "enter-data directive")],
         }})
     run.exhaustive = True
-    run.assumptions = ["partially written arrays are not decided"]
+    run.assumptions = ["whether a given write is complete is not decided"]
